@@ -182,11 +182,21 @@ def main(pid, tier, seed):
                              copy=(e_ % 2 == 0), with_x=True, base=[[s_, 0] for s_, _ in sbase[:40]]))
             n_shipped += 1
 
+    n_linked = [0]
+
     def runjob(j):
         # every edit works on its own private copy of the generated ruleset
         work = os.path.join(rcopy, 'Rules', '%s_e%d' % (j['name'], j['e']))
         shutil.copytree(os.path.join(rcopy, 'Rules', j['name']), work)
         wname = os.path.basename(work)
+        if j['copy'] and j['e'] % 2 == 0 and j['name'] != 'shipped':
+            # a ruleset that shares its structure list with another one through a link (`cp -rs` clones): --copy must leave the
+            # shared file alone (the digest of the source follows the link)
+            shared = os.path.join(rcopy, 'Rules', wname + '_shared')
+            os.makedirs(shared)
+            shutil.move(os.path.join(work, 'Grammar', 'grammar.txt'), os.path.join(shared, 'grammar.txt'))
+            os.symlink(os.path.join('..', '..', wname + '_shared', 'grammar.txt'), os.path.join(work, 'Grammar', 'grammar.txt'))
+            n_linked[0] += 1
         args = ['-r', wname]
         target = work
         if j['copy']:
@@ -302,7 +312,7 @@ def main(pid, tier, seed):
            'model_checking': mc, 'evaluations': len(jobs), 'distinct_nontrivial': distinct,
            'rule': 'one trace = one real edit_rules.py subprocess on a private copy of a generated ruleset (random filters, '
                    'with/without --copy) followed by the real guesser on the result; non-trivial = at least one structure removed',
-           'rulesets': n_rules, 'edits_of_the_shipped_ruleset': n_shipped, 'with_context_labels': sum(1 for j in jobs if j['with_x']),
+           'rulesets': n_rules, 'copies_of_rulesets_whose_structure_list_is_a_link': n_linked[0], 'edits_of_the_shipped_ruleset': n_shipped, 'with_context_labels': sum(1 for j in jobs if j['with_x']),
            'trace_validation': st, 'exhaustive': False, 'known_findings_reproduced': n_known, 'binding_selftest': selftest,
            'violation_histogram': verdict.histogram()}
     core.write_evidence(pid, tier, seed, 'model_checking', cov, time.time() - t0, violations=n_viol,
